@@ -37,11 +37,16 @@ def main():
             json.dump(meta, open(os.path.join(d, "meta.json"), "w"), indent=1)
             continue
         t0 = time.time()
+        # the evidence file belongs to runs on the UNCHANGED tree: keep it out of the way and restore it
+        ev = os.path.join(VERIF, "evidence", prop + ".json")
+        saved = open(ev).read() if os.path.exists(ev) else None
         try:
             cmd = f"./check {prop} --tier quick"
             c = sh(cmd, cwd=VERIF)
         finally:
             sh(f"git -C {REPO} checkout -- .")
+            if saved is not None:
+                open(ev, "w").write(saved)
         out = c.stdout + c.stderr
         viol = [l for l in out.splitlines() if l.startswith("VIOLATION") or l.strip().startswith("harness ")]
         inconc = [l for l in out.splitlines() if l.startswith("INCONCLUSIVE")]
